@@ -290,7 +290,7 @@ func init() {
 	register(rulePoll)
 	addProp(&PropSpec{
 		ID:          "C20",
-		Rules:       []string{"R-POLL", "R-PAIR-P", "R-PAIR-C", "R-LAUNDER", "R-GATE", "R-HARD", "R-ENTRY", "R-ERRFIRST"},
+		Rules:       []string{"R-POLL", "R-PAIR-P", "R-PAIR-C", "R-LAUNDER", "R-GATE", "R-HARD", "R-ENTRY", "R-ERRFIRST", "R-CTXZONE"},
 		Explanation: "Cancellation as a shape of the code: every recursion cycle of the evaluator polls the context; the (status, error) pair that carries the cancellation error is coherent at every return of every evaluator function and is propagated at every call site on every unrefuted path, so it cannot become an empty/partial result, NULL, or a boolean.",
 		Decided: []string{"R-POLL: every call-graph cycle among context-taking exec functions contains a poll; the dispatcher polls before dispatching",
 			"R-PAIR-P: error ⇒ failed/unknown at every return of every (status|outcome, error) function",
